@@ -843,3 +843,122 @@ def run_slicemin(ctx):
                              "`[1, 2, 3][-9223372036854775807 - 1:]` panics instead of yielding the whole array", hb.where(s.get("line")))
     res.floor(n, 1, "i64 -> isize conversions of slice bounds")
     return res
+
+
+# ----------------------------------------------------------------------------------------------------------------------
+MIN_LEN = "variable::r#type::Type::min_tuple_len"
+
+
+def _origin(b, o, depth=0):
+    """the parameter (or payload projection) a scalar operand is a copy of: (local, projection) after following moves / copies"""
+    if not isinstance(o, dict) or o.get("l") is None:
+        return None
+    l, proj = o["l"], tuple((p.get("k"), p.get("variant"), p.get("i")) for p in o.get("p", []))
+    if proj or l <= b.arg_count or depth > 8:
+        return (l, proj)
+    ds = b.def_sites(l)
+    if len(ds) == 1 and ds[0][1] == "assign" and ds[0][2]["rv"]["k"] == "use":
+        return _origin(b, ds[0][2]["rv"]["o"], depth + 1)
+    return (l, proj)
+
+
+def _derives_from_next(b, o, depth=0, seen=None):
+    seen = set() if seen is None else seen
+    if not isinstance(o, dict) or o.get("l") is None or depth > 10 or o["l"] in seen:
+        return False
+    seen.add(o["l"])
+    for _, k, d in b.def_sites(o["l"]):
+        if k == "call":
+            path = (d["func"].get("fn") or {}).get("path", "")
+            if path == "std::iter::Iterator::next":
+                return True
+            if d.get("args") and _derives_from_next(b, d["args"][0], depth + 1, seen):
+                return True
+        else:
+            rv = d["rv"]
+            for key in ("o", "place"):
+                if isinstance(rv.get(key), dict) and _derives_from_next(b, dict(rv[key]), depth + 1, seen):
+                    return True
+            for x in rv.get("ops", []):
+                if _derives_from_next(b, x, depth + 1, seen):
+                    return True
+    return False
+
+
+def run_seedfold(ctx):
+    res = RuleResult("R-SEEDFOLD", "a fold over the members of a union that is seeded with the first member in hash order must treat that "
+                                   "member like every other: the combiner is a function of (accumulator, current) only - it captures "
+                                   "nothing that derives from the `next()` that produced the seed. And the one fold that is not symmetric by "
+                                   "construction, Type::min_tuple_len, keeps the smaller of the two lengths (the bound that licenses "
+                                   "`t.N` on a union of tuples)")
+    lib = ctx.facts.lib
+    n = 0
+    for b in lib.bodies.values():
+        if "::tests::" in b.id or not b.id.startswith("variable::"):
+            continue
+        for c in b.calls:
+            last = c.path.rsplit("::", 1)[-1]
+            if last not in ("try_fold", "fold", "reduce") or not c.path.startswith("std::iter::Iterator"):
+                continue
+            st = (c.fn or {}).get("self_ty", "")
+            if "hash_set::" not in st and "hash_map::" not in st:
+                continue
+            n += 1
+            key = "seedfold:%s" % b.id
+            bad = None
+            for a in c.args[1:]:
+                if not isinstance(a, dict) or a.get("l") is None:
+                    continue
+                for _, k, d in b.def_sites(a["l"]):
+                    if k == "assign" and d["rv"]["k"] == "agg" and d["rv"].get("agg") == "closure":
+                        for cap in d["rv"].get("ops", []):
+                            if _derives_from_next(b, cap):
+                                bad = d["rv"]["closure"]
+            if bad:
+                res.bad(key, "the combiner %s of the fold in %s captures a value taken from the first member in hash order: the result "
+                             "depends on which member the hash set yields first (different runs of the same program disagree)" % (bad, b.id), b.where(c.line))
+            else:
+                res.ok(key, b.where(c.line), "combiner depends on (acc, curr) only")
+    res.floor(n, 8, "seeded folds over hash containers in the type algebra")
+    # min_tuple_len keeps the smaller length
+    b = lib.body(MIN_LEN)
+    if res.anchor(b is not None, MIN_LEN):
+        key = "seedfold:min_tuple_len|keeps-smaller"
+        bodies = [b] + list(lib.closures_of(MIN_LEN))
+        calls = [c.callee.rsplit("::", 1)[-1] for hb in bodies for c in hb.calls]
+        verdict = None
+        if "max" in calls:
+            verdict = "calls `max`"
+        elif "min" in calls:
+            verdict = ""
+        else:
+            for hb in bodies:
+                for i, s in hb.assigns():
+                    rv = s["rv"]
+                    if rv["k"] != "binop" or rv.get("op") not in ("Lt", "Le", "Gt", "Ge") or rv.get("ty") != "usize":
+                        continue
+                    sw = next((blk["term"] for blk in hb.blocks if blk["term"]["k"] == "switch" and isinstance(blk["term"]["discr"], dict)
+                               and blk["term"]["discr"].get("l") == s["place"]["l"]), None)
+                    if sw is None:
+                        continue
+                    true_t = sw["otherwise"] if [str(v) for v, _ in sw["targets"]] == ["0"] else dict((str(v), t) for v, t in sw["targets"]).get("1")
+                    smaller = rv["a"] if rv["op"] in ("Lt", "Le") else rv["b"]
+                    want = _origin(hb, smaller)
+                    got = None
+                    for blk in [true_t] + list(hb.succ[true_t]):
+                        for st in hb.blocks[blk]["stmts"]:
+                            if st["k"] == "assign" and st["place"]["l"] == 0 and not st["place"]["p"]:
+                                r2 = st["rv"]
+                                src = r2["ops"][0] if r2["k"] == "agg" and r2.get("ops") else r2.get("o")
+                                got = _origin(hb, src)
+                        if got is not None:
+                            break
+                    verdict = "" if (got is not None and got == want) else "when the comparison holds it does not answer with the smaller operand"
+        if verdict is None:
+            res.broken.append("cannot decide: Type::min_tuple_len neither calls min nor compares two lengths")
+        elif verdict:
+            res.bad(key, "Type::min_tuple_len does not keep the smaller length (%s): `t.N` is admitted for an index that only the longest "
+                         "member of a union of tuples has, and the result type (or the access) panics" % verdict, b.where())
+        else:
+            res.ok(key, b.where(), "keeps the smaller length")
+    return res
